@@ -418,8 +418,8 @@ func genMethodSteps(d *dg.Design, it *built, s *dg.Service, m *dg.Method, rng *v
 	}
 	var pv, rv *dg.Val
 	sole := hasFeature(d, "sole_validation")
-	if sole {
-		perMethod = 0 // every site of these small types is exercised, no sampling
+	if sole || it.stream == "covering" {
+		perMethod = 0 // the fixed designs are exercised at every site, without sampling
 	}
 	if m.Payload != nil {
 		if it.stream == "covering" {
@@ -633,6 +633,8 @@ func genWitnessSteps(d *dg.Design, m *dg.Method, pv, rv *dg.Val, mk func(desc, s
 		}
 		mk("valid", "", "request", obj("map_ro", one(obj("a", sv("x"), "b", iv(1)))), rv)
 		mkRaw("witness:map-value-missing-required", ".map_ro{val0}.a", obj("map_ro", one(obj("b", iv(1)))), "POST", "/wit/mapro", `{"map_ro":{"k":{"b":1}}}`)
+		mkRaw("witness:map-of-arrays-missing-required", ".maparr_ro{val0}[0].a", obj("maparr_ro", one(&dg.Val{K: "array", Elems: []*dg.Val{obj("b", iv(1))}})), "POST", "/wit/mapro", `{"maparr_ro":{"k":[{"b":1}]}}`)
+		mkRaw("witness:array-of-maps-missing-required", ".arrmap_ro[0]{val0}.a", obj("arrmap_ro", &dg.Val{K: "array", Elems: []*dg.Val{one(obj("b", iv(1)))}}), "POST", "/wit/mapro", `{"arrmap_ro":[{"k":{"b":1}}]}`)
 		mkRaw("raw:delete-key", ".arr_ro[0].a", obj("arr_ro", &dg.Val{K: "array", Elems: []*dg.Val{obj("b", iv(1))}}), "POST", "/wit/mapro", `{"arr_ro":[{"b":1}]}`)
 	case "w_cookie":
 		uv := func(u uint64) *dg.Val { return &dg.Val{K: "uint", U: u} }
@@ -662,6 +664,9 @@ func genWitnessSteps(d *dg.Design, m *dg.Method, pv, rv *dg.Val, mk func(desc, s
 		}
 		mk("valid", "", "request", one(3), rv)
 		mk("witness:shared-schema:value0", ".shm{val0}", "request", one(0), rv)
+	case "w_paint":
+		mk("valid", "", "request", obj("paint", obj("primary", sv("red"), "secondary", sv("green"))), rv)
+		mk("witness:alias-enum-narrowed-in-user-type", ".paint.primary", "request", obj("paint", obj("primary", sv("green"))), rv)
 	case "w_u64":
 		mk("witness:uint64-above-int64", ".u64", "request", obj("u64", &dg.Val{K: "uint", U: 18446744073709551615}), rv)
 	case "w_qmap":
